@@ -379,6 +379,9 @@ def table_read(ctx):
                 return Frame({nm: [(sp.Integer(i) if nm == 'id' else sp.Symbol('%s_%d' % (nm, i), real=True)) for i in ids_file] for nm in names})
 
         class BoxM(PyStub):
+            vects = symarray('bv', (3, 3), real=True)        # available to a reader that converts by hand: the result is then compared with the cell's own conversion
+            origin = symarray('bo', (3,), real=True)
+
             def position_relative_to_cartesian(self, v):
                 calls.append(('rel2cart', v))
                 return np.array([[sp.Function('cart')(*row, sp.Integer(j)) for j in range(3)] for row in np.asarray(v, dtype=object)], dtype=object)
